@@ -1,2 +1,3 @@
 import PropsR.Gen.KernelsReal
+import PropsR.C02
 import PropsR.C16
